@@ -3,9 +3,9 @@ import re
 CONFIG = dict(
     bin="c15",
     drv="drv_c15",
-    lean_modules=["MahfModel.Props.C15"],
+    lean_modules=["MahfModel.Props.C15", "MahfModel.Props.C15Files"],
     namespaces=["MahfModel.Props.C15"],
-    shrink_lists=["rules", "tree", "loop", "scope", "ifx"],
+    shrink_lists=["rules", "tree", "loop", "scope", "ifx", "calls", "pre", "probs"],
     level="proof",
     rule=("(1) logger: 27 log configurations (no LogConfig / empty / always / never / every-n incl. n = 0 / Not / scripted triggers incl. Err / "
           "ChangeOf triggers (need Logger::init), with_many, clear, duplicate entry names, sources missing; rule lists of even length are "
@@ -13,7 +13,11 @@ CONFIG = dict(
           "loop, inside a branch, inside a scope, nested loops, two loops, no loop at all) x iteration counts 0..5, plus seeded random "
           "programs over Block/Loop/Branch/Scope/Logger/SetX/AddX with random rule sets (2500 quick / 100000 thorough); each is a REAL "
           "Configuration built with the ConfigurationBuilder, run by optimize_with; the log is exported with to_json and to_cbor, both files "
-          "are decoded and compared with the model's log and compress. (2) template-log: all 21 templates x variants x random every-n rule "
+          "are decoded IN FULL (the JSON text must be one value, the CBOR file one item with no byte behind it) and compared with the "
+          "model's log and compress; every second grid case, half (thorough: a fifth) of the random programs and half of the template-log cases export to "
+          "paths that ALREADY EXIST — holding the same export, 0 / 1 / 17 / 300 / 5000 / 40000 bytes of junk, or an older export (written "
+          "by the real code) of a log with 0 / 1 / 3 / 12 / 60 / 400 steps, i.e. shorter, about as long and much longer than the new one; "
+          "all 14 x 14 (json, cbor) combinations occur. (2) template-log: all 21 templates x variants x random every-n rule "
           "sets (duplicate names, a missing source, with_common), witness = snapshot of the sources before every Logger execution. "
           "(3) cfg-template: all 21 templates x 4 variants x 2 bounds through to_ron and serde_json, clone, component names; cfg-tpair: all "
           "pairs of (variant, bound) per template. (4) cfg-pair / cfg-typair-*: trees of REAL components, conditions, lenses and identifiers "
@@ -23,19 +27,37 @@ CONFIG = dict(
           "removed, Scope removed, else added / removed) or exactly ONE TYPE PARAMETER changed (lens target at nesting depth up to 4, "
           "identifier) or nothing; every pair of every lens / identifier menu under every host component inside "
           "while LessThanN::iterations(100) {..}; each tree goes through Configuration::to_ron, serde_json and the name-preserving serde "
-          "traversal, whose output is read back as a tree of names, parameter values and children. Non-trivial = a logger case with at least "
-          "one rule and a Logger in the tree, or any template/cfg case; distinct = distinct input."),
-    nontrivial=lambda inp: (inp.startswith("(lg (rules (") and "(log)" in inp) or inp.startswith(("(tl", "(cfg", "(fl")),
+          "traversal, whose output is read back as a tree of names, parameter values and children. Configuration::to_ron always writes to a path that holds something else "
+          "(junk longer than any export; for the second tree of a pair: the export of the first, which is longer, shorter or equally "
+          "long), and the RON text left behind is read back as a whole by the harness's RON reader into the same tree form. (5) exp / "
+          "exp-reuse: sequences of 1..3 REAL par_experiment calls (child process) into ONE folder: configurations of the logger program "
+          "language with rule sets, 0..3 runs, 0..2 problems, log on / off; 15 systematic second experiments that differ from the first "
+          "in exactly one respect (one parameter value up / down / to 0, a sparser log, fewer / more runs, fewer / other problems, no "
+          "logs, one node more / fewer, other nesting, nothing) in both orders, folders pre-seeded with junk / older exports under the "
+          "names the experiment writes to (and under names it does not), a failing run in the middle, and random sequences whose next "
+          "call changes exactly one number of the previous configuration, the rules, or everything (110 quick / 2500 thorough); after "
+          "every call configuration.ron is read back as a tree and every <problem>_<run>.cbor of this call is decoded in full. "
+          "Non-trivial = a logger case with at least one rule and a Logger in the tree, or any template/cfg/exp case; distinct = "
+          "distinct input."),
+    nontrivial=lambda inp: (inp.startswith("(lg (rules (") and "(log)" in inp) or inp.startswith(("(tl", "(cfg", "(fl", "(exp")),
     trusted_base=[
         "serde_json / ciborium / ron back-ends are exercised (files written by the real code are decoded by the harness), not modelled",
         "HashMap iteration order of the per-step export maps is represented by 'any permutation' (export_order_independent)",
         "harness-defined states X, G<I>, components SetX/AddX, conditions Const/Script/XGe and extractor Named use public traits only",
         "the harness's exact JSON reader (numbers through Rust's correctly rounded str::parse::<f64>) and canonical value printer",
+        "the harness's RON reader (ron_to_sexp: the text written by Configuration::to_ron / par_experiment into the generic tree form "
+        "of hcommon::sertree; rejects a text that is not ONE value) — a wrong reading shows as a K disagreement on the unchanged tree",
+        "the operating system's file semantics: File::create truncates, a write through a fresh writer starts at offset 0 "
+        "(modelled as fileCreate / fileWrite); paths of one experiment folder are modelled as structured names "
+        "(configuration.ron, (problem, run)), i.e. distinct (problem, run) pairs are assumed to give distinct file names",
         "the harness's name-preserving serde traversal (hcommon::sertree) and the driver's generic reader of its output (readItem): "
         "struct / newtype / tuple-struct / unit-struct names kept, field names dropped, order kept",
         "the harness's table from a structured type name to the Rust type it instantiates (a wrong entry shows as a K disagreement on the "
         "exported name)"],
     assumptions=[
+        "exp cases: every run of one par_experiment call executes the same deterministic program (no component or trigger of the "
+        "program language draws random numbers), so all runs of a call have the same specified log; which run / problem a log file "
+        "belongs to is therefore checked by name and count only (seed-dependent content per run is C08's subject)",
         "SplitMix64-seeded generators; type_name strings are stable for the pinned toolchain (type_name elides a generic argument equal "
         "to its default: NormalMutation<Global> prints as NormalMutation)",
         "type names in the generated menus have one generic argument per level (type_name separates several arguments by ', ', the model "
@@ -62,7 +84,22 @@ CONFIG.update(
                 "serialisation equals the described tree with every type name rendered in full, and the equal/unequal verdicts of to_ron, "
                 "serde_json and the traversal equal the model's; O: decoded exports equal the specified sequence of steps as maps; every "
                 "configuration serialises, exports are equal exactly when the configurations are the same, a clone exports identically, "
-                "the export names every component with its parameter values and nesting)."),
+                "the export names every component with its parameter values and nesting). "
+                "Files (Props/C15Files): over a file-system model with File::create = truncate and offset-0 writes, an export leaves "
+                "EXACTLY the written bytes at its path for every earlier content and touches no other path (export_replaces_file); for "
+                "every lawful self-delimiting codec (len_codec_lawful: the length-prefixed encoding of the compressed log is one) the "
+                "CBOR / JSON file read AS A WHOLE decodes to exactly the log (cbor_file_decodes_exactly, json_file_decodes_exactly_partial), "
+                "after any sequence of exports every path reads as the last log exported to it (last_export_wins), reading as a whole "
+                "notices any stale tail while a one-item prefix decoder does not (stale_tail_is_noticed), and without truncation a "
+                "shorter export over a longer file is undecodable (untruncated_export_keeps_tail — what the theorems exclude). "
+                "par_experiment on a folder in ANY state: on Ok configuration.ron is this call's export and every <problem>_<run>.cbor "
+                "(run < runs) decodes as a whole to that run's log (experiment_records_are_this_calls, experiment_ok_all_runs_ok), other "
+                "log files and — with log = false — all log files stay as they were (experiment_other_files_untouched), a second "
+                "experiment into the same folder replaces the configuration and a different configuration gives a different file "
+                "(reused_folder_config_is_replaced with cfg_bytes_injective_partial / prog_export_injective). Tied to /repo by the pre-existing-"
+                "path cases of every export site and by real par_experiment sequences (K: tree read back from configuration.ron and "
+                "decoded log files equal the model's folder after every call; O: the call's result, configuration.ron denotes THIS "
+                "call's configuration (names, parameter values, nesting), every log file of this call decodes in full to the specified log)."),
     level_note=("proof, partial: the theorems are about the model. Configuration export: the leaf level (type names, parameter values, "
                 "PhantomData fields) and the tree shape are modelled and tied per generated tree by reading the real export back; the "
                 "per-component Serialize derives are NOT modelled in Lean — the expected shape of each component kind is part of the "
@@ -75,5 +112,11 @@ CONFIG.update(
                 "outside any loop logs its step without an iteration entry (fix 5b69ade). The order of entries INSIDE a step is treated as "
                 "representation in K as well as O (the exports are hash maps; the property fixes no order). ChangeOf triggers are modelled "
                 "per trigger, which is exact for at most one such trigger per rule set in programs without a Scope; the driver refuses "
-                "other inputs."),
+                "other inputs. Files: the file system, the RON / JSON / CBOR byte formats and rayon's scheduling are not modelled beyond "
+                "create = truncate, offset-0 writes and 'jobs touch pairwise different files'; the log-file codec is abstract (any lawful "
+                "self-delimiting codec; serde_json / ciborium are exercised by decoding every real file in full). Files of an earlier "
+                "experiment that THIS call does not write (runs >= runs, other problems, logs when log = false) stay in the folder "
+                "(experiment_other_files_untouched); the property does not speak about them, they are reported ('other') and not compared. "
+                "When a run fails, which other runs had already written their logs is not determined; only the Err is compared (the harness still "
+                "reports the configuration.ron it finds)."),
 )
